@@ -27,7 +27,7 @@ type VRec struct {
 }
 
 func main() {
-	mode := flag.String("mode", "explore", "explore | corpus | replay | pureprice")
+	mode := flag.String("mode", "explore", "explore | corpus | replay | pureprice | purekeys")
 	seed := flag.Int64("seed", 1, "PRNG seed")
 	n := flag.Int("n", 10, "number of generated histories")
 	minOps := flag.Int("minops", 30, "")
@@ -87,6 +87,8 @@ func main() {
 	}
 
 	switch *mode {
+	case "purekeys":
+		fmt.Printf("purekeys cases=%d\n", runPureKeys(out, *seed, *n))
 	case "replay":
 		b, err := os.ReadFile(*replay)
 		must(err)
